@@ -540,7 +540,7 @@ func (p *c05) runDistinct(r *core.CaseResult, c *c05case, sql string) {
 
 func (p *c05) Meta() core.Meta {
 	return core.Meta{
-		Rule: "one case per (key list in {none, a, a DESC, b, b DESC, 5 two-key lists}, limit in {absent,0..5}, offset in {absent,0..5}, both LIMIT spellings, with/without WHERE), the same windows inside a CTE body and a derived table, LIMIT / OFFSET on select lists made only of aggregates (one-row sequence), and (SELECT DISTINCT b with {no key, b, b DESC} x limit 0..3 x offset absent,0..3), run on every table of <= 3 (thorough 5) rows over 7 archetypes (ties on each key, a NULL key; plus three tables of 14, 33 and 70 rows and 12 tables whose numeric key is of a native Go integer type; NULL tables skipped for two-key lists); non-trivial = the expected window has > 1 row or selects 1 of several",
+		Rule: "one case per (key list in {none, a, a DESC, b, b DESC, 5 two-key lists}, limit in {absent,0..5}, offset in {absent,0..5}, both LIMIT spellings, with/without WHERE), the same windows inside a CTE body and a derived table, LIMIT / OFFSET on select lists made only of aggregates (one-row sequence), and (SELECT DISTINCT b with {no key, b, b DESC} x limit 0..3 x offset absent,0..3), run on every table of <= 3 (thorough 5) rows over 7 archetypes (ties on each key, a NULL key; plus three tables of 14, 33 and 70 rows and 12 tables whose numeric key is of a native Go integer type; NULL tables skipped for two-key lists); non-trivial = the expected window has > 1 row or selects 1 of several; LIMIT / OFFSET values at the end of the integer range in both spellings; one changed-between-executions case (7 queries x single and paired in-place edits of the key column between two executions of one Query, against a fresh Query)",
 		Assumptions: []string{
 			"tie order is not fixed by the property: with ORDER BY the key tuples of the output are compared with those of the reference-sorted window, and the rows must be distinct source rows that passed WHERE",
 			"NULL placement is specified for a single sort key only",
